@@ -133,6 +133,20 @@ func cfgInterpret(k cfgKey, v any, prev map[int]bool) (map[int]bool, bool) {
 			if x == "false" {
 				return map[int]bool{0: true}, true
 			}
+			// other capitalisation / surrounding blanks: may or may not count
+			switch strings.ToLower(strings.TrimSpace(x)) {
+			case "true", "false":
+				out := map[int]bool{}
+				for p := range prev {
+					out[p] = true
+				}
+				if strings.ToLower(strings.TrimSpace(x)) == "true" {
+					out[1] = true
+				} else {
+					out[0] = true
+				}
+				return out, true
+			}
 		}
 		return nil, false
 	case "int":
@@ -215,7 +229,20 @@ func genCfgPayload(c *simrt.Chooser) (payload any, shape string) {
 		enc := ""
 		if k.Kind == "bool" {
 			b := c.Bool("bool-val")
-			switch c.Weighted("bool-enc", []int{8, 3, 1, 1, 1, 1, 1}) {
+			switch c.Weighted("bool-enc", []int{8, 3, 1, 1, 1, 1, 1, 2, 1}) {
+			case 7:
+				// spellings that are not booleans: the value must stay unchanged
+				v = []string{"1", "0", "t", "f", "T", "F", "on", "off", "y", "n"}[c.Choose("bool-junk", 10)]
+				enc = "ill:" + v.(string)
+			case 8:
+				// other capitalisations of true/false: the text leaves open whether
+				// they count, so both outcomes are acceptable
+				if b {
+					v = []string{"TRUE", "True", " true "}[c.Choose("bool-case", 3)]
+				} else {
+					v = []string{"FALSE", "False", " false "}[c.Choose("bool-case", 3)]
+				}
+				enc = "bool-as-string-other-case"
 			case 0:
 				v, enc = b, "bool"
 			case 1:
